@@ -994,6 +994,7 @@ fn replay(a: &Args) -> i32 {
         return 0;
     }
     if a.get("--ops").unwrap_or("").trim_start().starts_with("Raw ") {
+        report::SOFT_MASK.store(if a.has("--all-oracles") { report::S_ALL } else { report::soft_mask_for(pname) }, Relaxed);
         shared::init();
         alloc::init(true);
         alloc::set_fault_reporter(report::on_fault);
